@@ -1,7 +1,7 @@
 #!/bin/sh
 # runs every registered quick command in /verif against /repo (regenerates evidence/*.json); prints one summary line each
 cd "$(dirname "$0")/.."
-for id in C01 C02 C03 C04 C05 C06 C07 C08 C09 C10 C11 C13 C15 C16 C17 C18 C19 C20; do
+for id in C01 C02 C03 C04 C05 C06 C07 C08 C09 C10 C11 C12 C13 C15 C16 C17 C18 C19 C20; do
   ./vf check $id --tier quick > out/quick_$id.log 2>&1; rc=$?
   echo "$id exit=$rc $(tail -1 out/quick_$id.log)"
 done
